@@ -13,6 +13,19 @@ NA = {
 PENDING = "check not built yet (planned, DESIGN.md section 6)"
 
 CHECKS = {
+    "C06": dict(
+        category="proof",
+        text="Deductive, generator-level core only: the destructor (capsule) table of wrapc.Wrapc as a data structure "
+             "against an abstract view (ghost inverse map): add_capsule_code, add_destructor, find_idtor, compute_idtor "
+             "(slice) and the switch emission of write_capsule_code (slice) preserve well-formedness, never change an "
+             "existing entry, return/assign exactly the index of the selected destructor name, never assign a destructor "
+             "to library-owned or non-pointer values, emit one case block per entry labelled with the index handed out, "
+             "and always emit the reset of addr/idtor. Callers checked against callee contracts.",
+        design_ref="6/C06, A.7",
+        note="Trusted: pyvc, z3/cvc5, wformat/append_format contracts, typemap-cache precondition. Not covered: run-time "
+             "behaviour of emitted code under any call sequence (needs execution), wrapp.py reference counting.",
+        technique="contract-based deductive verification (AST-generated VCs, z3+cvc5)",
+    ),
     "C17": dict(
         category="proof",
         text="Deductive exception-freedom and functional contracts on the attribute validation layer "
